@@ -2,9 +2,10 @@
 # seed_validate.sh <id> <module dir for the demo: v2|.|stringclassifier|...> <go test -run regexp> [extra go test flags]
 # Confirms in a scratch worktree: patch applies, existing suite passes with it, demo fails with it, demo passes without it.
 set -u
+VROOT=$(cd "$(dirname "$0")/.." && pwd)
 export GOFLAGS=-mod=mod GOPROXY=off GOSUMDB=off GOTOOLCHAIN=local
 id=$1; dest=$2; runre=$3; shift 3; extra="$*"
-d=/verif/seeded/$id
+d=$VROOT/seeded/$id
 W=$(mktemp -d /tmp/verif-seedwt-XXXXXX)
 rmdir "$W"
 git -C /repo worktree add -q --detach "$W" HEAD || exit 2
